@@ -339,9 +339,15 @@ impl Universe {
         format!("UNKNOWN:{p:?}")
     }
     pub fn sboms_of(&self, m: &BTreeMap<String, String>) -> Vec<Sbom> {
+        // (paired runs of C20 only) a second, different document of the same format ahead of each: which of two
+        // documents of one format ends up in the file is the library's choice - the same choice in every process
+        let dup = std::env::var_os("VERIF_DIGESTS").is_some();
         m.iter()
             .filter(|(_, t)| t.as_str() != "none")
-            .map(|(f, t)| Sbom::from_bytes(sbom_format(f), self.sboms.get(t).unwrap_or_else(|| panic!("sbom token {t}")).clone()))
+            .flat_map(|(f, t)| {
+                let real = Sbom::from_bytes(sbom_format(f), self.sboms.get(t).unwrap_or_else(|| panic!("sbom token {t}")).clone());
+                if dup { vec![Sbom::from_bytes(sbom_format(f), format!("{{\"another\": \"document of {f}\"}}")), real] } else { vec![real] }
+            })
             .collect()
     }
     pub fn exec_programs(&self, x: &BTreeSet<String>) -> HashMap<String, PathBuf> {
